@@ -142,6 +142,27 @@ def run_read(fmt, data, K, lazy, src, rows, bad, tmpdir=None, tid=0):
     return events
 
 
+def joined_lines(fmt, data, K, carry):
+    """[(k, diagnosed line)] for the lazily read chunks k.. joined before use; chunking errors and undiagnosed errors give nothing"""
+    import numpy as np
+    from bionumpy.io.exceptions import FormatException
+    try:
+        rd, _f, _r = formats.open_reader(fmt, data, True, carry)
+        chunks = list(rd.read_chunks(min_chunk_size=K))
+    except Exception:       # noqa: the malformed record was refused while chunking; that path is judged by run_read
+        return []
+    out = []
+    for k in range(len(chunks) - 1):
+        try:
+            formats.project_table(np.concatenate(chunks[k:]))
+        except FormatException as e:
+            if e.line_number is not None:
+                out.append((k, int(e.line_number)))
+        except Exception:   # noqa
+            pass
+    return out
+
+
 def check_vector(v):
     """Binding A: one MC_C15 configuration, each violation class of the family, lazy and eager."""
     fam = v["family"]
@@ -176,6 +197,17 @@ def check_vector(v):
                                 "vector": v, "case": case, "expected": "line in %d..%d" % (first_line, first_line + E - 1), "observed": last})
             if v["bad"] > 1 or cfg["K"] < cfg["flen"]:
                 nt.append("%s|%s|%s|%s" % (fam, cls, lazy, json.dumps([cfg, v["bad"]], sort_keys=True)))
+        # lazily read chunks joined (np.concatenate) from chunk k on BEFORE any column is looked at: the line of the offending record is
+        # still counted from the start of the data
+        jl = joined_lines(fmt, data, cfg["K"], cfg["mode"] == "prepend")
+        for k, ln in jl:
+            n += 1
+            if not (first_line <= ln < first_line + E):
+                bad.append({"what": "reported line number is not a line of the offending record after lazily read chunks were joined",
+                            "tags": {"family": fam, "format": fmt, "class": cls, "lazy": True, "mode": cfg["mode"], "kind": "wrong-line-joined"},
+                            "vector": v, "case": {"cfg": cfg, "bad": v["bad"], "class": cls, "data": data.decode("latin-1"), "joined_from_chunk": k},
+                            "expected": "line in %d..%d" % (first_line, first_line + E - 1), "observed": ln})
+                break
         if len(lines_seen) > 1:
             bad.append({"what": "lazy and eager reading report different line numbers", "tags": {"family": fam, "class": cls, "kind": "lazy-eager-line"},
                         "vector": v, "expected": "one line", "observed": sorted(lines_seen)})
